@@ -11,6 +11,8 @@ uint8_t *pc_malloc(uint64_t n) {
   return b;
 }
 void pc_free(uint8_t *p) { (void)p; }
+/* between two printed constants: all mpz objects of the previous one are dead, their value slots are reused */
+void pc_reset(void) { gmp_n = 1; }
 static int pc_put_dec(uint8_t *b, int p, gz_t v) {
   __CPROVER_assert(v >= 0 && v <= 999, "bound: numerals printed by the GMP model are below 1000");
   __CPROVER_assume(v >= 0 && v <= 999);
